@@ -1,6 +1,7 @@
 package main
 
 import (
+	"context"
 	"encoding/json"
 	"errors"
 	"fmt"
@@ -326,7 +327,11 @@ type c11Node struct {
 	Inner    bool       `json:"inner,omitempty"`
 	Cond     c11Cond    `json:"cond"`
 	Explicit bool       `json:"explicit,omitempty"` // interior preload node without condition: call Preload(path) itself too
-	Kids     []*c11Node `json:"kids,omitempty"`
+	// join nodes: column list of the joined relation, given on the join's handle as Select(...) / Omit(...) (db or Go field
+	// names); the row number n always stays selected, so which child was attached remains observable
+	Sel  []string   `json:"sel,omitempty"`
+	Omit []string   `json:"omit,omitempty"`
+	Kids []*c11Node `json:"kids,omitempty"`
 }
 
 type c11Op struct {
@@ -346,9 +351,16 @@ type c11Op struct {
 	Unscoped bool `json:"unscoped,omitempty"` // db.Unscoped(): soft-deleted parents / children are part of the result
 }
 
+// an injected failure of the K-th query (0-based, counted over the queries the operation sends)
+type c11Fault struct {
+	K    int    `json:"k"`
+	Kind string `json:"kind"` // err: driver error | cancel: the operation's context is cancelled at that query | notfound: the driver answers gorm.ErrRecordNotFound
+}
+
 type c11Case struct {
-	World c11World `json:"world"`
-	Op    c11Op    `json:"op"`
+	World c11World  `json:"world"`
+	Op    c11Op     `json:"op"`
+	Fault *c11Fault `json:"fault,omitempty"`
 }
 
 func c11OpenWorld(f *c11Family, w c11World) (*gorm.DB, func()) {
@@ -468,8 +480,18 @@ func (f *c11Family) applyNodes(db, q *gorm.DB, t *c11Table, prefix []string, nod
 		name := strings.Join(path, ".")
 		if nd.Join {
 			var args []interface{}
-			if nd.Cond.Kind != "" {
-				args = append(args, c11JoinOn(db, nd.Cond, c11Alias(path), f.table(rel.Child).typ()))
+			if nd.Cond.Kind != "" || len(nd.Sel) > 0 || len(nd.Omit) > 0 {
+				h := db
+				if nd.Cond.Kind != "" {
+					h = c11JoinOn(db, nd.Cond, c11Alias(path), f.table(rel.Child).typ())
+				}
+				if len(nd.Sel) > 0 {
+					h = h.Select(append([]string{}, nd.Sel...))
+				}
+				if len(nd.Omit) > 0 {
+					h = h.Omit(nd.Omit...)
+				}
+				args = append(args, h)
 			}
 			if nd.Inner {
 				q = q.InnerJoins(name, args...)
@@ -618,6 +640,12 @@ func c11RunCase(cs c11Case) (got, want []string, err error) {
 	}
 	db, closeFn := c11OpenWorld(f, cs.World)
 	defer closeFn()
+	return c11ExecCase(db, nil, cs)
+}
+
+// run the operation of one case on an opened world (the operations only read); ctx (optional) becomes the operation's context
+func c11ExecCase(db *gorm.DB, ctx context.Context, cs c11Case) (got, want []string, err error) {
+	f := c11Families[cs.World.Family]
 	defer func() {
 		if p := recover(); p != nil {
 			err = fmt.Errorf("panic: %v", p)
@@ -629,6 +657,9 @@ func c11RunCase(cs c11Case) (got, want []string, err error) {
 	qn := "`" + t.Name + "`.`n`"
 	base := func() *gorm.DB {
 		q := db.Session(&gorm.Session{})
+		if ctx != nil {
+			q = q.WithContext(ctx)
+		}
 		if op.Unscoped {
 			q = q.Unscoped()
 		}
@@ -657,11 +688,14 @@ func c11RunCase(cs c11Case) (got, want []string, err error) {
 		case "single":
 			one := reflect.New(t.typ())
 			if op.Twice && !op.All && !c11HasJoin(nodes) {
-				if e := f.applyNodes(db, base(), t, nil, c11StripConds(nodes)).First(one.Interface()).Error; e != nil && !errors.Is(e, gorm.ErrRecordNotFound) {
+				if e := f.applyNodes(db, base(), t, nil, c11StripConds(nodes)).First(one.Interface()).Error; e != nil && (ctx != nil || !errors.Is(e, gorm.ErrRecordNotFound)) {
 					return nil, nil, e
 				}
 			}
 			e := q.First(one.Interface()).Error
+			if ctx != nil && e != nil {
+				return nil, nil, e // fault runs: every error counts as reported
+			}
 			if errors.Is(e, gorm.ErrRecordNotFound) {
 				e = nil
 			} else if e == nil {
@@ -742,9 +776,13 @@ func c11RunCase(cs c11Case) (got, want []string, err error) {
 			}
 			model = ps.Interface()
 		}
-		tx := db.Model(model)
+		adb := db
+		if ctx != nil {
+			adb = db.WithContext(ctx)
+		}
+		tx := adb.Model(model)
 		if op.Unscoped {
-			tx = db.Unscoped().Model(model)
+			tx = adb.Unscoped().Model(model)
 		}
 		var inline []interface{}
 		if op.Cond.Kind != "" {
@@ -800,7 +838,7 @@ func c11RunCase(cs c11Case) (got, want []string, err error) {
 			}
 			cnt := asc.Count()
 			if asc.Error != nil {
-				if !usable {
+				if !usable && ctx == nil {
 					return nil, nil, nil
 				}
 				return nil, nil, asc.Error
@@ -810,7 +848,7 @@ func c11RunCase(cs c11Case) (got, want []string, err error) {
 		} else {
 			out := reflect.New(reflect.SliceOf(ct.typ()))
 			if e := asc.Find(out.Interface(), inline...); e != nil {
-				if !usable {
+				if !usable && ctx == nil {
 					return nil, nil, nil
 				}
 				return nil, nil, e
@@ -921,7 +959,115 @@ func (f *c11Family) genNodes(rng *rand.Rand, t *c11Table, depth int, joinAllowed
 		if depth < 2 && len(ct.Rels) > 0 && rng.Intn(3) == 0 {
 			nd.Kids = f.genNodes(rng, ct, depth+1, nd.Join, maxN, false)
 		}
+		if nd.Join && rng.Intn(3) == 0 {
+			// a Preload below the join reads the joined record's key columns: they stay selected
+			var keep []string
+			for _, k := range nd.Kids {
+				if !k.Join {
+					kr := ct.rel(k.Rel)
+					ps := kr.On
+					if kr.Via != "" {
+						ps = kr.ViaP
+					}
+					for _, p := range ps {
+						keep = append(keep, p[0])
+					}
+				}
+			}
+			nd.Sel, nd.Omit = f.genColList(rng, ct, keep)
+		}
 		out = append(out, nd)
+	}
+	return out
+}
+
+// every column of a model table, in an order that is NOT the declaration order
+func (t *c11Table) allCols() []string {
+	out := []string{"deleted_at", "n"}
+	for _, c := range t.Cols {
+		out = append(out, c.Name)
+	}
+	if !hasCol(t, "id") && modelHasID(t.Model) {
+		out = append(out, "id")
+	}
+	return out
+}
+
+// column list of a join: Select(subset containing n and keep) or Omit(subset without n and keep); names are spelt as db
+// column or as Go field name
+func (f *c11Family) genColList(rng *rand.Rand, t *c11Table, keep []string) (sel, omit []string) {
+	cols := t.allCols()
+	spell := func(c string) string {
+		if rng.Intn(3) == 0 {
+			if fld := c11Schema(t).LookUpField(c); fld != nil {
+				return fld.Name
+			}
+		}
+		return c
+	}
+	inKeep := func(c string) bool { return c == "n" || c11In(keep, c) }
+	if rng.Intn(2) == 0 {
+		for _, i := range rng.Perm(len(cols)) {
+			if inKeep(cols[i]) || rng.Intn(2) == 0 {
+				sel = append(sel, spell(cols[i]))
+			}
+		}
+		return sel, nil
+	}
+	for _, i := range rng.Perm(len(cols)) {
+		if !inKeep(cols[i]) && rng.Intn(2) == 0 {
+			omit = append(omit, spell(cols[i]))
+		}
+	}
+	return nil, omit
+}
+
+// Joins(X) [+ Joins(X.Y)] + Preload(X.Z…) / Preload(X.Y.Z…): the preloads run in sessions derived below a joined relation
+func (f *c11Family) genBelowJoin(rng *rand.Rand, t *c11Table, maxN int) []*c11Node {
+	var cands []*c11RelD
+	for i := range t.Rels {
+		if t.Rels[i].Single && len(f.table(t.Rels[i].Child).Rels) > 0 {
+			cands = append(cands, &t.Rels[i])
+		}
+	}
+	if len(cands) == 0 {
+		return nil
+	}
+	rel := cands[rng.Intn(len(cands))]
+	ct := f.table(rel.Child)
+	nd := &c11Node{Rel: rel.Field, Join: true}
+	if rng.Intn(4) == 0 {
+		nd.Cond = genC11Cond(rng, maxN, []string{"struct", "expr", "alias"})
+	}
+	for _, i := range rng.Perm(len(ct.Rels)) {
+		if len(nd.Kids) >= 1+rng.Intn(2) {
+			break
+		}
+		kr := &ct.Rels[i]
+		kid := &c11Node{Rel: kr.Field}
+		kt := f.table(kr.Child)
+		if kr.Single && len(kt.Rels) > 0 && rng.Intn(3) == 0 { // second joined hop with a preload below it
+			kid.Join = true
+			gk := &kt.Rels[rng.Intn(len(kt.Rels))]
+			kid.Kids = []*c11Node{{Rel: gk.Field}}
+		} else {
+			if rng.Intn(3) == 0 {
+				kid.Cond = genC11Cond(rng, maxN, []string{"inline", "scope"})
+			}
+			if len(kt.Rels) > 0 && rng.Intn(3) == 0 { // nested preload below the preload below the join
+				gk := &kt.Rels[rng.Intn(len(kt.Rels))]
+				kid.Kids = []*c11Node{{Rel: gk.Field}}
+				kid.Explicit = rng.Intn(2) == 0
+			}
+		}
+		nd.Kids = append(nd.Kids, kid)
+	}
+	out := []*c11Node{nd}
+	if rng.Intn(3) == 0 { // a sibling preload next to the join
+		sib := &t.Rels[rng.Intn(len(t.Rels))]
+		if sib.Field != rel.Field {
+			out = append(out, &c11Node{Rel: sib.Field})
+		}
 	}
 	return out
 }
@@ -945,7 +1091,15 @@ func (f *c11Family) genOp(rng *rand.Rand, w c11World) c11Op {
 			}
 		}
 	}
-	switch x := rng.Intn(10); {
+	switch x := rng.Intn(12); {
+	case x >= 10: // a joined to-one relation with preloads BELOW it (also nested), half of the time under Unscoped
+		op.Kind = "query"
+		op.Shape = []string{"slice", "ptrs", "single"}[rng.Intn(3)]
+		op.Nodes = f.genBelowJoin(rng, t, maxN)
+		if len(op.Nodes) == 0 {
+			op.Nodes = f.genNodes(rng, t, 0, true, maxN, false)
+		}
+		op.Unscoped = rng.Intn(2) == 0
 	case x < 4: // preload only
 		op.Kind = "query"
 		op.Shape = []string{"slice", "ptrs", "single", "dup"}[rng.Intn(4)]
@@ -958,7 +1112,7 @@ func (f *c11Family) genOp(rng *rand.Rand, w c11World) c11Op {
 			op.Nodes = f.genNodes(rng, t, 0, false, maxN, false)
 		}
 		op.Twice = op.Shape == "single" && rng.Intn(2) == 0
-		op.Unscoped = rng.Intn(6) == 0
+		op.Unscoped = rng.Intn(4) == 0
 	case x < 7: // joins (+ preloads)
 		op.Kind = "query"
 		op.Shape = []string{"slice", "ptrs", "single"}[rng.Intn(3)]
@@ -969,6 +1123,7 @@ func (f *c11Family) genOp(rng *rand.Rand, w c11World) c11Op {
 		if op.Shape == "single" && c11DeepChain(op.Nodes, 0) && rng.Intn(4) > 0 {
 			op.Shape = "slice" // stay away from the listed finding F6b most of the time
 		}
+		op.Unscoped = rng.Intn(3) == 0
 	default:
 		op.Kind = "assoc"
 		op.Shape = []string{"one", "structs", "ptrs", "dupptrs", "dupvals"}[rng.Intn(5)]
@@ -977,12 +1132,36 @@ func (f *c11Family) genOp(rng *rand.Rand, w c11World) c11Op {
 			op.Cond = genC11Cond(rng, maxN, []string{"inline", "where"})
 		}
 		op.Count = rng.Intn(3) == 0
-		op.Unscoped = rng.Intn(8) == 0
+		op.Unscoped = rng.Intn(5) == 0
 	}
 	return op
 }
 
 // ---- histogram helpers -------------------------------------------------------------------------------------
+
+// which load paths an Unscoped operation exercises
+func c11UnscopedShape(op c11Op) string {
+	if op.Kind == "assoc" {
+		return "assoc/" + op.Shape
+	}
+	var join, pre, nested, below, cond bool
+	var walk func(nodes []*c11Node, depth int, underJoin bool)
+	walk = func(nodes []*c11Node, depth int, underJoin bool) {
+		for _, nd := range nodes {
+			if nd.Join {
+				join = true
+			} else {
+				pre = true
+				nested = nested || depth > 0
+				below = below || underJoin
+				cond = cond || nd.Cond.Kind != ""
+			}
+			walk(nd.Kids, depth+1, underJoin || nd.Join)
+		}
+	}
+	walk(op.Nodes, 0, false)
+	return fmt.Sprintf("%s join=%v preload=%v nested=%v preload-below-join=%v cond=%v all=%v", op.Shape, join, pre, nested, below, cond, op.All)
+}
 
 func (f *c11Family) nodeStats(r *Result, t *c11Table, nodes []*c11Node, depth int) {
 	for _, nd := range nodes {
